@@ -162,3 +162,21 @@ pub assume_specification[ i128::unsigned_abs ](x: i128) -> (r: u128)
 //@ assume std::u64::wrapping_neg : std documentation: wrapping (modular) negation, 0 - self modulo 2^64
 pub assume_specification[ u64::wrapping_neg ](x: u64) -> (r: u64)
     ensures r as int == (if x == 0 { 0int } else { 0x1_0000_0000_0000_0000 - (x as int) });
+
+//@ assume __position_nonzero : rule R28a: std semantics of `s.iter().position(|&r| r != 0)`: index of the first non-zero element, None if there is none
+#[verifier::external_body]
+pub fn __position_nonzero(s: &[u64]) -> (r: Option<usize>)
+    ensures match r {
+        None => forall|j: int| 0 <= j < s@.len() ==> s@[j] == 0,
+        Some(i) => i < s@.len() && s@[i as int] != 0 && forall|j: int| 0 <= j < i ==> s@[j] == 0,
+    }
+{ unimplemented!() }
+
+//@ assume __slice_next_back : rules R28b/R28c: a slice iterator modelled by the sub-slice it has yet to yield; `next_back` yields a reference to its last element and shrinks it by one, or None on empty
+#[verifier::external_body]
+pub fn __slice_next_back<'a>(s: &'a [u64]) -> (r: (Option<&'a u64>, &'a [u64]))
+    ensures match r.0 {
+        None => s@.len() == 0 && r.1@ =~= s@,
+        Some(x) => s@.len() > 0 && *x == s@[s@.len() - 1] && r.1@ =~= s@.subrange(0, s@.len() - 1),
+    }
+{ unimplemented!() }
